@@ -179,6 +179,23 @@ func (k *KVStore) NewEntry() storage.Entry {
 	return entry.New()
 }
 
+// deleteFromOlderTables removes the superseded version of hkey from the read-only
+// tables after a newer version has been written to the head table. Without this,
+// the old version would be served again after a Delete, counted twice by Stats
+// and exported as a live entry.
+func (k *KVStore) deleteFromOlderTables(hkey uint64) error {
+	for i := len(k.tables) - 2; i >= 0; i-- {
+		err := k.tables[i].Delete(hkey)
+		if errors.Is(err, table.ErrHKeyNotFound) {
+			continue
+		}
+		if err != nil {
+			return err
+		}
+	}
+	return nil
+}
+
 // PutRaw sets the raw value for the given key.
 func (k *KVStore) PutRaw(hkey uint64, value []byte) error {
 	// A table rejects an entry unless inuse+offset < allocated, so an entry as
@@ -212,7 +229,7 @@ func (k *KVStore) PutRaw(hkey uint64, value []byte) error {
 		break
 	}
 
-	return nil
+	return k.deleteFromOlderTables(hkey)
 }
 
 // Put sets the value for the given key. It overwrites any previous value for that key
@@ -249,7 +266,7 @@ func (k *KVStore) Put(hkey uint64, value storage.Entry) error {
 		break
 	}
 
-	return nil
+	return k.deleteFromOlderTables(hkey)
 }
 
 // GetRaw extracts encoded value for the given hkey. This is useful for merging tables.
